@@ -270,9 +270,13 @@ func countingLoop(comp []*ssa.BasicBlock) bool {
 }
 
 func checkC13(c *Ctx, r *Report) {
-	r.Explain = "Structural necessary conditions for context-bounded blocking: (a) in transport.Send every socket write/read is behind either the matching Set*Deadline call fed from ctx.Deadline() of the ctx parameter or the arm on which the context has no deadline; (b) every Transport.Send call site passes a context derived with context.WithTimeout/WithDeadline from the enclosing function's ctx parameter; (c) every backoff.Retry uses backoff.WithContext(·, ctx) with that parameter; (d) ctx-threading — every call in the library that passes a context.Context passes one derived from the caller's own ctx parameter, never context.Background()/TODO(); (e) no other blocking primitive (sleep, channel operation, select, mutex/WaitGroup wait, goroutine start) occurs in library code; (f) every loop in a ctx-taking function either contains a ctx-threaded call on its cycle or is a counting loop bounded by local data. Not the numeric bound, not scheduling."
+	r.Explain = "Structural necessary conditions for context-bounded blocking: (a) in transport.Send every socket write/read is behind either the matching Set*Deadline call fed from ctx.Deadline() of the ctx parameter or the arm on which the context has no deadline; (b) every Transport.Send call site passes a context derived with context.WithTimeout/WithDeadline from the enclosing function's ctx parameter; (c) every backoff.Retry uses backoff.WithContext(·, ctx) with that parameter; (d) ctx-threading — every call in the library that passes a context.Context passes one derived from the caller's own ctx parameter, never context.Background()/TODO(); (e) no other blocking primitive (sleep, channel operation, select, mutex/WaitGroup wait, goroutine start) occurs in library code; (f) every loop in a ctx-taking function either contains a ctx-threaded call on its cycle or is a counting loop bounded by local data; (g) no success without a response — every exit of the send closures returns to the retry loop what the outcome it handled requires, and an in-session transport failure recorded as terminal is what the caller gets. Not the numeric bound, not scheduling."
 	r.NotDecided = []string{"the numeric bound deadline + allowance (wall-clock)", "scheduling delays", "blocking inside third-party code beyond the stated contracts"}
 	r.Trusted = []string{"go/types, go/ssa (x/tools v0.29.0)", "net.UDPConn read/write honour the deadline last set", "backoff.WithContext stops retrying once the context is done", "context.WithTimeout never extends the parent's deadline"}
+
+	// (g) no success without a response: what each exit of the send closures hands back to the
+	// retry loop, and that a recorded in-session failure reaches the caller (shared with C10)
+	checkClosureExits(c, r)
 
 	// (a) transport.Send
 	send := c.transportSend()
